@@ -95,7 +95,7 @@ def _can_remove_block(
     if (
         (
             block.module.entry_point is block
-            or _auxdata.elf_dynamic_fini.get(block.module) is block
+            or _auxdata.elf_dynamic_init.get(block.module) is block
             or _auxdata.elf_dynamic_fini.get(block.module) is block
         )
         and not isinstance(next_block, gtirb.CodeBlock)
